@@ -64,6 +64,35 @@ def cmdEncode (args : List String) : String :=
     | _, _, _, _, _ => "bad-args"
   | _ => "bad-args"
 
+/-- One call of a `session` request: `<type>:<version>:<source | _>:<payloadhex | - | !>`; `_` = the call omits
+`source_identifier`, the source may be negative, `!` = `message.pack()` raises. -/
+def parseCall (s : String) : Option EncCall :=
+  match s.splitOn ":" with
+  | [t, v, src, p] =>
+    match t.toNat?, v.toNat?, (if src == "_" then some none else src.toInt?.map some),
+        (if p == "!" then some none else (parseBuf p).map some) with
+    | some t, some v, some src, some p => some ⟨t, v, src, p⟩
+    | _, _, _, _ => none
+  | _ => none
+
+/-- The model stepped over a history: per call `ok <hex> <seq after>` / `err <kind> <seq after>`. -/
+def sessionSteps : Encoder → List EncCall → List String
+  | _, [] => []
+  | e, c :: cs =>
+    (match encodeCall e c with
+     | (.ok out, e') => s!"ok {toHex out} {e'.sequenceNumber}"
+     | (.error er, e') => s!"err {showErr er} {e'.sequenceNumber}") :: sessionSteps (encodeCall e c).2 cs
+
+/-- `session <start seq> <call> <call> …` : one encoder object driven through a history of calls; the per-call
+answers joined by `|`. -/
+def cmdSession (args : List String) : String :=
+  match args with
+  | q :: calls =>
+    match q.toNat?, calls.mapM parseCall with
+    | some q, some cs => "|".intercalate (sessionSteps ⟨q⟩ cs)
+    | _, _ => "bad-args"
+  | _ => "bad-args"
+
 def showOptBool : Option Bool → String
   | none => "oob"
   | some true => "1"
@@ -87,6 +116,7 @@ def dispatchCrc (cmd : String) (args : List String) : Option String :=
   | "crcsplit" => some (cmdCrcSplit args)
   | "crclin" => some (cmdCrcLin args)
   | "encode" => some (cmdEncode args)
+  | "session" => some (cmdSession args)
   | "validate" => some (cmdValidate args)
   | _ => none
 
